@@ -24,9 +24,10 @@ G_PROPS = {
                 opts={"cycles_bias_one": True}),
     "C10": dict(oracles=["c10"], families=FAMILIES, modes=MODES, n_quick=6000, n_thorough=60000,
                 opts={"pop_scales": (1, 1.5, 2, 3), "any_pop_p": 0.5}),
-    "C15": dict(oracles=["c15", "c15_trend"], families=FAMILIES, modes=MODES, n_quick=6000, n_thorough=60000, opts={}),
+    "C15": dict(oracles=["c15", "c15_trend"], families=FAMILIES, modes=MODES, n_quick=6000, n_thorough=60000,
+                opts={"p_history": 0.35, "history_utils": True}),
     "C17": dict(oracles=["c17"], families=FAMILIES, modes=MODES, n_quick=6000, n_thorough=60000,
-                opts={"only_classified": "elitist.json", "stop_opts": True}),
+                opts={"only_classified": "elitist.json", "stop_opts": True, "long_int_runs": 0.5}),
     "C11": dict(oracles=["c11_pool", "c01", "c02", "c03", "c10"], families=CONT_FAMILIES, modes=POOLED,
                 n_quick=6000, n_thorough=60000, opts={"p_no_faults": 0.25, "pool_heavy_bias": True, "p_line": 0.15}),
 }
@@ -80,7 +81,16 @@ def make_desc(job):
         o["minmax"] = o["minmax_bias"]
     if o.get("cycles_bias_one") and r.random() < 0.15:
         o["cycles"] = (1, 1)
+    if o.get("long_int_runs") and fam in INT_FAMILIES and r.random() < o["long_int_runs"]:
+        # small search spaces + many cycles: the population collapses onto exact copies of the best point
+        o["cycles"] = (10, 30)
+        o["stop_opts"] = False
+        o["pop_scales"] = (1, 1, 1.5)
+        o["any_pop_p"] = 0.1
+        o["dim_max"] = 3
     desc = scenario.gen_scenario(job["seed"], opt, fam, mode, engine_g.make_config, tier=job["tier"], opts=o)
+    if o.get("history_utils") and desc.get("history"):
+        desc["history_utils"] = True
     if o.get("objective_bias") == "plateau" and r.random() < 0.4 and "multi" not in desc["task"]["objective"]:
         ob = desc["task"]["objective"]
         ob["family"] = "plateau"
